@@ -8,6 +8,9 @@ From SU.Proofs Require Import LfoProofs SineProofs.
 From SU.Model Require Import Utils.
 From Flocq Require Import Core.
 From SU.Proofs Require Import SharedProofs.
+From SU.Proofs Require Import LivenessProofs.
+From SU.Spec Require Import RunSpec.
+From SU.Spec Require Import AdsrSpec.
 Open Scope R_scope.
 
 (** between consecutive ticks the sine changes by at most 2*pi*1.002 times the phase step
@@ -44,7 +47,35 @@ Theorem C12_linear_interp_error : forall y0 y1 fr : f32, fin y0 -> fin y1 -> fin
     <= 4 * bpow radix2 (-24).
 Proof. exact linear_interp_error. Qed.
 
+(** sine continuity over arbitrary histories *)
+Theorem C12_sine_trace : forall fs ops, fs_ok fs -> Forall (lfo_op_ok fs) ops ->
+  let l := lfo_run fs ops in
+  let l' := lfo_step l LTick in
+  Rabs (R32 (lfo_get l' Sine) - R32 (lfo_get l Sine))
+    <= 2 * PI * 1.002 * (IZR (pa_inc l) / 16777216) + 2 * / 16777216.
+Proof. exact C12_sine_trace. Qed.
+
+(** triangle continuity over arbitrary histories *)
+Theorem C12_triangle_trace : forall fs ops, fs_ok fs -> Forall (lfo_op_ok fs) ops ->
+  let l := lfo_run fs ops in
+  let l' := lfo_step l LTick in
+  Rabs (R32 (lfo_get l' Triangle) - R32 (lfo_get l Triangle))
+    <= 4 * (IZR (pa_inc l) / 16777216).
+Proof. exact C12_triangle_trace. Qed.
+
+(** in terms of the last requested frequency: at most 2 pi 1.002 f / fs (1 + 2^-23) + 2^-23 per tick *)
+Theorem C12_sine_trace_freq : forall fs pre f post, fs_ok fs ->
+  Forall (lfo_op_ok fs) (pre ++ LSetFreq f :: post) -> Forall LfoKillers.not_set_freq post ->
+  let l := lfo_run fs (pre ++ LSetFreq f :: post) in
+  let l' := lfo_step l LTick in
+  Rabs (R32 (lfo_get l' Sine) - R32 (lfo_get l Sine))
+    <= 2 * PI * 1.002 * (R32 f / R32 fs * (1 + / 8388608)) + 2 * / 16777216.
+Proof. exact C12_sine_trace_freq. Qed.
+
 Print Assumptions C12_sine_continuous.
 Print Assumptions C12_triangle_continuous.
 Print Assumptions C12_wrap.
 Print Assumptions C12_linear_interp_error.
+Print Assumptions C12_sine_trace.
+Print Assumptions C12_triangle_trace.
+Print Assumptions C12_sine_trace_freq.
